@@ -645,7 +645,7 @@ class SortedSet(object):
         try:
             while lo < hi:
                 mid = (lo + hi) // 2
-                if a[mid] < x: lo = mid + 1
+                if _total_lt(a[mid], x): lo = mid + 1
                 else: hi = mid
         except TypeError:
             # could not compare a[mid] with x
@@ -662,6 +662,23 @@ class SortedSet(object):
         return lo
 
 sortedset = SortedSet  # backwards-compatibility
+
+
+def _total_lt(a, b):
+    # ``<`` between sets means proper inclusion, which is only a partial order and would
+    # break the bisection in SortedSet._find_insertion for nested sets
+    # (set<frozen<set<...>>>): order those by size first (which keeps subsets before their
+    # supersets), then item by item
+    if isinstance(a, SortedSet) and isinstance(b, SortedSet):
+        if len(a._items) != len(b._items):
+            return len(a._items) < len(b._items)
+        for x, y in zip(a._items, b._items):
+            if _total_lt(x, y):
+                return True
+            if _total_lt(y, x):
+                return False
+        return False
+    return a < b
 
 
 class OrderedMap(Mapping):
